@@ -4113,6 +4113,29 @@ func ruleDEAD1(c *Ctx) []Ob {
 						o.add(OK, key, relPath(c, call.Pos()), "result dropped, the argument is a map/slice/pointer updated in place")
 						continue
 					}
+					// a method that writes through its receiver is called for that effect: its result (a flag
+					// telling what it did) may be dropped
+					if gd := c.declared(g); gd.Signature.Recv() != nil && len(gd.Params) > 0 {
+						writes := false
+						for _, gb := range gd.Blocks {
+							for _, gi := range gb.Instrs {
+								switch w := gi.(type) {
+								case *ssa.MapUpdate:
+									if sameOrigin(lostBase(w.Map), gd.Params[0]) || lostBase(w.Map) == ssa.Value(gd.Params[0]) {
+										writes = true
+									}
+								case *ssa.Store:
+									if lostBase(w.Addr) == ssa.Value(gd.Params[0]) {
+										writes = true
+									}
+								}
+							}
+						}
+						if writes {
+							o.add(OK, key, relPath(c, call.Pos()), "result dropped, the method updates its receiver")
+							continue
+						}
+					}
 					o.add(VIOLATED, key, relPath(c, call.Pos()), "the value computed by %s is discarded (an assignment to a range or local copy that is never read): the conversion it performs does not happen", shortCallee(call))
 				} else {
 					o.add(OK, key, relPath(c, call.Pos()), "result used")
